@@ -226,6 +226,8 @@ class Folder:
                 it = sorted(it, key=repr)
             if isinstance(it, dict):
                 it = list(it.keys())
+            if isinstance(it, (type({}.keys()), IntArray)) or (getattr(it, "_sa_model", False) and hasattr(it, "__iter__")):
+                it = list(it)
             if not isinstance(it, (list, tuple, str, range)):
                 raise Undecidable(f"loop over {norm(s.iter)}")
             broke = False
@@ -240,6 +242,25 @@ class Folder:
                     continue
             if not broke:
                 self.block(s.orelse)
+            return
+        if isinstance(s, ast.Delete):
+            for t in s.targets:
+                if isinstance(t, ast.Subscript):
+                    cont = self.expr(t.value)
+                    if isinstance(t.slice, ast.Slice):
+                        k = slice(*(self.expr(x) if x is not None else None for x in (t.slice.lower, t.slice.upper, t.slice.step)))
+                    else:
+                        k = self.expr(t.slice)
+                    if not isinstance(cont, (list, dict)):
+                        raise Undecidable(f"del on {norm(t.value)}")
+                    try:
+                        del cont[k]
+                    except (KeyError, IndexError):
+                        raise Raised("KeyError" if isinstance(cont, dict) else "IndexError", s)
+                elif isinstance(t, ast.Name):
+                    self.env.pop(t.id, None)
+                else:
+                    raise Undecidable(f"del {norm(t)}")
             return
         if isinstance(s, ast.Break):
             raise _Break()
@@ -336,8 +357,8 @@ class Folder:
 
     # -- expressions ------------------------------------------------------------
     def truth(self, v, node) -> bool:
-        if isinstance(v, (bool, int, float, str, list, tuple, dict, set, frozenset)) or v is None:
-            return bool(v)
+        if isinstance(v, (bool, int, float, str, list, tuple, dict, set, frozenset, type({}.keys()), IntArray)) or v is None:
+            return bool(v) if not isinstance(v, IntArray) else len(v) > 0
         if isinstance(v, sp.Basic):
             if v is sp.true:
                 return True
@@ -470,6 +491,9 @@ class Folder:
             return out
         if isinstance(e, ast.Call):
             return self.call(e)
+        if isinstance(e, ast.Lambda):
+            fd = ast.FunctionDef(name="<lambda>", args=e.args, body=[ast.Return(value=e.body, lineno=e.lineno, col_offset=e.col_offset)], decorator_list=[], lineno=e.lineno, col_offset=e.col_offset)
+            return FuncVal(fd, closure=self.env)
         if isinstance(e, (ast.ListComp, ast.SetComp, ast.DictComp, ast.GeneratorExp)):
             return self.comp(e)
         raise Undecidable(f"expression {type(e).__name__}: {norm(e)}")
@@ -491,7 +515,7 @@ class Folder:
                 it = sorted(it, key=repr)
             if isinstance(it, dict):
                 it = list(it.keys())
-            for x in it:
+            for x in list(it):
                 self.assign(g.target, x)
                 if all(self.truth(self.expr(c), c) for c in g.ifs):
                     rec(i + 1)
@@ -703,6 +727,12 @@ class Folder:
                 return IntArray([y for x in args[0] for y in x.v])
             if all(isinstance(x, list) for x in args[0]):
                 return [y for x in args[0] for y in x]
+        if fn in ("copy.deepcopy", "deepcopy", "copy.copy") and len(args) == 1 and not kwargs:
+            import copy as _copy
+            try:
+                return _copy.deepcopy(args[0]) if fn != "copy.copy" else _copy.copy(args[0])
+            except Exception as ex:
+                raise Undecidable(f"{fn}: {ex}")
         if fn in ("np.empty", "numpy.empty") and len(args) == 1 and isinstance(args[0], int) and not isinstance(args[0], bool) and set(kwargs) <= {"dtype"}:
             return [None] * args[0]                                      # uninitialised one-dimensional array
         if fn == "format" and len(args) == 2 and isinstance(args[0], (int, float)) and isinstance(args[1], str) and not kwargs:
@@ -730,6 +760,17 @@ class Folder:
                 return {"next": next, "iter": iter}[fn](*args)
             except Exception as ex:
                 raise Undecidable(f"{fn}: {ex}")
+        if fn in ("sorted", "max", "min") and len(args) == 1 and set(kwargs) <= {"key", "reverse"} and isinstance(kwargs.get("key"), FuncVal):
+            items = list(args[0].keys()) if isinstance(args[0], dict) else list(args[0])
+            keyed = [(self.call_funcval(kwargs["key"], [x], {}), x) for x in items]
+            try:
+                if fn == "sorted":
+                    order = sorted(range(len(items)), key=lambda i: keyed[i][0], reverse=bool(kwargs.get("reverse", False)))
+                    return [items[i] for i in order]
+                pick = (max if fn == "max" else min)(range(len(items)), key=lambda i: keyed[i][0])
+                return items[pick]
+            except (TypeError, ValueError) as ex:
+                raise Undecidable(f"{fn} with key: {ex}")
         if fn in ("dict", "list", "set", "tuple", "sorted", "len", "str", "frozenset", "reversed", "range", "abs", "int", "float", "max", "min", "sum", "zip", "enumerate") and not kwargs:
             if fn in ("int", "float") and len(args) == 1 and isinstance(args[0], str):
                 try:
@@ -797,7 +838,7 @@ class Folder:
                 return getattr(obj, m)()
             if isinstance(obj, dict) and m in ("keys", "values", "items", "get", "copy") and not kwargs:
                 r = getattr(obj, m)(*args)
-                return list(r) if m in ("keys", "values", "items") else r
+                return list(r) if m in ("values", "items") else r       # keys() stays a set-like view (comparisons, set algebra)
             if isinstance(obj, list) and m == "append" and len(args) == 1:
                 obj.append(args[0])
                 return None
